@@ -14,6 +14,8 @@ def run(sid):
     for p in dict.fromkeys(props):
         r = subprocess.run([f'{V}/tools/run_seeded.sh', p, f'{V}/seeded/{sid}'], capture_output=True, text=True, timeout=4000)
         line = r.stdout.strip().splitlines()[-1] if r.stdout.strip() else r.stderr[-200:]
+        if 'PATCH-DOES-NOT-APPLY' in line:
+            res[p] = 'PATCH DOES NOT APPLY'; res[p + '_line'] = line[:300]; continue
         viol = 'violations=0' not in line and 'rc=1' in line
         nofind = 'no-failing-input-found' in line
         res[p] = ('VIOLATION (no failing input found)' if nofind else 'VIOLATION with failing input') if viol else 'not detected'
